@@ -229,6 +229,8 @@ func c09Programs(tier string) []c09prog {
 		{"call-in-test-file-only", pkgFiles{"a.go": "package m\n\ntype S struct{ A int }\n", "a_test.go": "package m\n\nfunc use(a, b *S) bool {\n\treturn deriveEqual(a, b)\n}\n"}, false},
 		{"dot-import-of-unsafe-with-bare-calls", pkgFiles{"a.go": "package m\n\nimport . \"unsafe\"\n\ntype S struct {\n\tA int\n\tB []string\n}\n\nvar size = Sizeof(S{})\n\nfunc use(a, b *S) bool {\n\t_ = Pointer(a)\n\treturn deriveEqual(a, b)\n}\n"}, true},
 		{"dot-import-of-a-module-package", pkgFiles{"a.go": "package m\n\nimport . \"example.com/m/lib\"\n\nfunc use(a, b *Thing) bool {\n\t_ = Make()\n\treturn deriveEqual(a, b)\n}\n", "lib/lib.go": "package lib\n\ntype Thing struct {\n\tA int\n\tL []string\n}\n\nfunc Make() *Thing { return nil }\n"}, true},
+		{"struct-with-only-blank-fields-embedded", pkgFiles{"a.go": "package m\n\ntype noCompare struct{ _ [0]func() }\n\ntype onlyPad struct {\n\t_ int32\n\t_ [4]byte\n}\n\ntype S struct {\n\tnoCompare\n\tP onlyPad\n\tQ *onlyPad\n\tA int\n\tB []string\n}\n\nfunc use(a, b *S) bool {\n\treturn deriveEqual(a, b)\n}\n"}, true},
+		{"struct-with-only-blank-fields-hash-compare-copy", pkgFiles{"a.go": "package m\n\ntype onlyPad struct {\n\t_ int32\n}\n\ntype S struct {\n\tP onlyPad\n\tQ *onlyPad\n\tL []onlyPad\n\tA int\n}\n\nfunc use(a, b *S) (uint64, int, *S, string) {\n\treturn deriveHash(a), deriveCompare(a, b), deriveClone(a), deriveGoString(a)\n}\n"}, true},
 		{"line-directive-before-package-clause", pkgFiles{"gen/a.go": "//line ../tmpl/point.tmpl:2\npackage gen\n\ntype S struct {\n\tA int\n\tB []string\n}\n\nfunc use(a, b *S) bool {\n\treturn deriveEqual(a, b)\n}\n", "tmpl/point.tmpl": "template text\n", "tmpl/keep.go": "package tmpl\n"}, false},
 		{"method-value-and-conversion-calls", pkgFiles{"a.go": "package m\n\ntype S struct {\n\tA int\n\tB []string\n}\n\ntype F func(int) int\n\nfunc (s *S) M(x int) int { return x }\n\nfunc use(a, b *S) bool {\n\tf := a.M\n\t_ = F(f)(1) + int(float64(2)) + len(a.B)\n\treturn deriveEqual(a, b)\n}\n"}, true},
 		{"generic-function-next-to-the-call", pkgFiles{"a.go": "package m\n\ntype S struct {\n\tA int\n\tB []string\n}\n\nfunc Map[T, U any](f func(T) U, l []T) []U { return nil }\n\nfunc use(a, b *S) bool {\n\t_ = Map(func(i int) string { return \"\" }, []int{1})\n\treturn deriveEqual(a, b)\n}\n"}, true},
